@@ -512,6 +512,10 @@ func (m *Machine) Load(T types.Type, p Ptr) Value {
 			return m.readScalar(p, 8)
 		case u.Info()&(types.IsInteger|types.IsFloat) != 0:
 			return m.readScalar(p, sizeof(u))
+		case u.Kind() == types.Complex64:
+			return m.readScalar(p, 8)
+		case u.Kind() == types.Complex128:
+			return ArrayVal{m.readScalar(p, 8), m.readScalar(Ptr{ID: p.ID, Off: p.Off + 8}, 8)}
 		}
 	case *types.Pointer, *types.Map, *types.Chan, *types.Signature:
 		return m.readWord(p)
@@ -636,6 +640,14 @@ func (m *Machine) Store(T types.Type, p Ptr, v Value) {
 		case u.Info()&(types.IsInteger|types.IsFloat) != 0:
 			m.writeScalar(p, sizeof(u), v.(*Term))
 			return
+		case u.Kind() == types.Complex64:
+			m.writeScalar(p, 8, v.(*Term))
+			return
+		case u.Kind() == types.Complex128:
+			av := v.(ArrayVal)
+			m.writeScalar(p, 8, av[0].(*Term))
+			m.writeScalar(Ptr{ID: p.ID, Off: p.Off + 8}, 8, av[1].(*Term))
+			return
 		}
 	case *types.Pointer, *types.Map, *types.Chan, *types.Signature:
 		m.writeWord(p, v)
@@ -694,6 +706,10 @@ func (m *Machine) Zero(T types.Type) Value {
 			return Ptr{}
 		case u.Info()&(types.IsInteger|types.IsFloat) != 0:
 			return m.st.Const(uint8(sizeof(u)*8), 0)
+		case u.Kind() == types.Complex64:
+			return m.st.Const(64, 0)
+		case u.Kind() == types.Complex128:
+			return ArrayVal{m.st.Const(64, 0), m.st.Const(64, 0)}
 		}
 	case *types.Pointer, *types.Map, *types.Chan, *types.Signature:
 		return Ptr{}
